@@ -340,6 +340,11 @@ func c19Generate(g *srcGen) string {
 				in.WriteString("<br>")
 			case g.r.Intn(5) == 0:
 				in.WriteString("<img" + g.c19Attrs() + ">")
+			case phrasing && g.r.Intn(6) == 0:
+				// raw-text elements are phrasing content too: a script or style among the inline children of a paragraph, a cell, a span -
+				// its text is raw text wherever it stands
+				in.WriteString([]string{"<script>document.write(y < 2000 ? \"19\" + y : y)</script>", "<script>if (a && b || c > 0) { go(\"&lt;\") }</script>", "<style>p > b { color: red }</style>",
+					"<script>\n  var s = \"a   b\";\n  x(s)\n</script>", "<script>plain()</script>"}[g.r.Intn(5)])
 			case phrasing:
 				// parser-stable sources only: phrasing content holds phrasing content (and no <a> inside <a>)
 				it := []string{"span", "b", "em", "code"}[g.r.Intn(4)]
